@@ -109,6 +109,12 @@ class AceGroup(AceBase, Group):
     def __lt__(self, other) -> bool:
         """< less than."""
         if hasattr(other, "sequence"):
+            if isinstance(other, AceGroup) and self._sequence != other.sequence:
+                # a block without own number (just created by Acl.group) is ordered
+                # by the number of its 1st item, like a numbered block by its own number
+                seq_self = self._sequence or (self._items[0].sequence if self._items else 0)
+                seq_other = other.sequence or (other.items[0].sequence if other.items else 0)
+                return seq_self < seq_other
             if self._sequence == other.sequence:
                 if other.__class__.__name__ == "Remark":
                     return False
